@@ -31,8 +31,36 @@ def check(ctx):
     ctx.rule("C14-E", "the FragStart arm of the tree walk only records the marker; its size estimate is zero")
     ctx.rule("C14-F", "the renderer's line list grows only through add_line, the one place where pending markers are attached "
              "to the next line; every other mutable use of SubRenderer.lines only edits an existing line")
-    for rid, fn in (("C14-A", rule_a), ("C14-B", rule_b), ("C14-C", rule_c), ("C14-D", rule_d), ("C14-E", rule_e), ("C14-F", rule_f)):
+    ctx.rule("C14-G", "a marker splits the text run it stands in: TaggedLine::push_str / push_char append to an existing string "
+             "only when that string is the line's last element (v.last_mut() under the Str variant), never to an earlier one "
+             "found by searching past markers")
+    for rid, fn in (("C14-A", rule_a), ("C14-B", rule_b), ("C14-C", rule_c), ("C14-D", rule_d), ("C14-E", rule_e), ("C14-F", rule_f),
+                    ("C14-G", rule_g)):
         ctx.guard(rid, fn)
+
+
+SEARCHES = ("rev", "find", "find_map", "rfind", "iter_mut", "iter", "rposition", "position", "nth_back", "next_back", "filter",
+            "filter_map", "last", "get_mut", "index_mut", "split_last_mut")
+
+
+def rule_g(ctx):
+    F = ctx.facts
+    n = 0
+    for fn in ("TaggedLine::<T>::push_str", "TaggedLine::<T>::push_char"):
+        b = F.one(fn)
+        for bb, t in b.calls(lambda cd, t: callee_method(t) in ("push_str", "push") and "String" in (callee_def(t) or "")):
+            at = b.atoms(t["args"][0])
+            if not has_field(at, "TaggedLine", "v"):
+                continue  # a string built here (the new element), not one already in the line
+            n += 1
+            calls = {a[1].split("::")[-1] for a in at if a[0] == "call" and a[1]}
+            via_last = "last_mut" in calls and any(a[0] == "field" and str(a[1]).endswith("TaggedLineElement::Str") for a in at)
+            searched = sorted(calls & set(SEARCHES))
+            ctx.check(via_last and not searched, "C14-G", "%s:merges-into-last-element-only" % fn.split("::")[-1], t["span"], b.id,
+                      "text is appended to a string of the line that is not (only) obtained as v.last_mut() matched against Str%s: "
+                      "text pushed after a fragment marker would be merged into the run before the marker, which moves the marker "
+                      "behind its element's first characters" % (" (found: %s)" % ", ".join(searched) if searched else ""))
+    ctx.floor("C14-G", "appends to an existing string of a TaggedLine", n, 2)
 
 
 def fragstart_sites(b):
@@ -306,7 +334,11 @@ def rule_c(ctx):
         # order: the block's lines are emitted first, the markers that trail them are queued afterwards (queued
         # before, add_line would put them in front of text that precedes their element)
         emits = fw.calls(lambda cd, t: ends(cd, "SubRenderer::<D>::extend_lines") or ends(cd, "SubRenderer::<D>::add_line"))
-        ctx.check(bool(emits) and all(fw.dominates(ebb, ext[0][0]) for ebb, _t in emits), "C14-C",
+        il = fw.calls(lambda cd, t: ends(cd, "WrappedBlock::<T>::into_lines"))
+        after = fw.reach_from(ext[0][1]["target"]) if ext[0][1].get("target") is not None else set()
+        okc = bool(emits) and len(il) == 1 and fw.dominates(il[0][0], ext[0][0]) and \
+            all(ebb in fw.reach_from(il[0][0]) and ebb not in after for ebb, _t in emits)
+        ctx.check(okc, "C14-C",
                   "flush_wrapping:lines-before-trailing-markers", ext[0][1]["span"], fw.id,
                   "pending_frags.extend(..) must come after the flushed block's lines were added")
         errs = drops.error_blocks(fw)
